@@ -13,10 +13,10 @@ def run(tier: str, seed: int, replay=None) -> int:
         PROP, tier, seed, replay, profile="c01+quant", mode="set", n_quick=3000, n_thorough=120000,
         targets=["Props/C01.vo"],
         in_fragment=lambda c: eqlcheck.FRAG.get(eqlcheck.case_key(c), False),
-        modelled_classes=["K_notunion", "K_selprod", "K_emptydom", "K_quant_nofalse", "K_forall_open", "K_quant_shadow"],
+        modelled_classes=["K_emptydom", "K_quant_nofalse", "K_forall_open", "K_quant_shadow"],
         trusted=[
             "hand-written model Eql/Eval.v of symbolic.py (Variable/Literal/Attribute/Comparator/AND/ElseIf/Union/Not/Exists/ForAll, "
-            "QueryObjectDescriptor selection product), tied by differential execution through the public API; for the logical operators "
+            "QueryObjectDescriptor selection by nested loops under one assignment), tied by differential execution through the public API; for the logical operators "
             "and the decisions of or_/not_ the tie is additionally by translation: translator/t_symeval.py (generator bodies of "
             "Not/AND/OR/Union/ElseIf -> Gen/SymbolicEval.v, proved equal to the model in Eql/EvalSourceProofs.v) and "
             "translator/t_symbolic.py (optimize_or, the _invert_ table, not_/and_/or_, chained_logic -> Gen/SymbolicDecisions.v, "
@@ -29,7 +29,7 @@ def run(tier: str, seed: int, replay=None) -> int:
             "queries are tree-shaped: every Attribute/Comparator/logical node object occurs once (node reuse is finding class K_sharednode, replayed from its witness)",
             "vocabulary modelled: variables over explicit domains, literals, attribute chains, ==,!=,<,<=,>,>=, contains/in_, and_, or_, not_, entity/set_of; "
             "exists/for_all are covered by the theorems under the static side conditions wfq / ok TS / ok TC (Props/C01.v: C01_q_sound_complete); the proved fragment of every generated case is the flag case_in_F01 COMPUTED IN COQ (theorem C01_fragment_flag), not a Python predicate; indexing and method calls on attribute values are modelled as one attribute step (functions of the value); flatten, predicates (C12) and sub-queries are not modelled (findings there are replayed from recorded witnesses)",
-            "CPython generator protocol and itertools.product",
+            "CPython generator protocol",
         ],
         rule=("seeded random queries (harness/eqlgen.py, profile c01): 1-3 variables over object / value-equal-twin / int domains of 0-4 "
               "elements (empty domains, duplicates, shared domains), conditions of depth <= 3 over comparisons, membership, set-equality "
